@@ -616,6 +616,8 @@ class Driver:
 
 def _is_crosshair_control(e):
     m = type(e).__module__ or ""
+    if getattr(e, "ours", False):
+        return False
     return m.startswith("crosshair") or m.startswith("z3") or isinstance(e, (HarnessError, KeyboardInterrupt, SystemExit, RecursionError, MemoryError))
 
 
